@@ -157,7 +157,7 @@ Proof.
     assert (Hc2 : get_client w2 h = Some (set_data (set_perms c1 []) []))
       by (apply (get_client_upd_self w1 h (fun c2 => set_data (set_perms c2 []) []) c1 Hc1)).
     eapply inv_send_fail; [exact HI2 | exact Hc2 | exact Hg1].
-  - (* admitted *)
+  - (* the join is accepted *)
     finish_ok H.
     assert (Hgr' : find_group w1 (m_group m) = Some gr).
     { unfold find_group in *. rewrite Hgr1. exact Hgr. }
